@@ -14,8 +14,8 @@ using namespace verif;
 
 namespace verif {
 const char* const HARNESS = "c10";
-enum { F_FLAVOR = S_NFIELDS, F_THREADS, F_NODES, F_INITEDGES, F_OPS, F_DELAY, F_OSEED, F_COUNT };
-const std::vector<const char*> FIELDS = {VERIF_SCHED_FIELDS, "flavor", "threads", "nodes", "initedges", "ops", "delay", "oseed"};
+enum { F_FLAVOR = S_NFIELDS, F_THREADS, F_NODES, F_INITEDGES, F_OPS, F_DELAY, F_OSEED, F_HOT, F_COUNT };
+const std::vector<const char*> FIELDS = {VERIF_SCHED_FIELDS, "flavor", "threads", "nodes", "initedges", "ops", "delay", "oseed", "hot"};
 static const char* FLAVORS[] = {"directed", "directed-inout", "undirected", "sorted", "no-lockable"};
 
 Case generate() {
@@ -29,6 +29,9 @@ Case generate() {
   c[F_INITEDGES] = *gen::inRange(0, 20);
   c[F_OPS]       = *gen::inRange(1, 150);
   c[F_DELAY]     = *uni(0, 3);
+  // hot pair: that share (in tenths) of the operations works on one node pair, in either direction, so
+  // that operations on the same edge from both of its ends meet often
+  c[F_HOT]       = *gen::weightedElement<int>({{2, 0}, {1, 3}, {1, 6}});
   c[F_OSEED]     = *uni(0, 1 << 24);
   return c;
 }
@@ -138,22 +141,38 @@ struct OpDesc {
   int kind, a, b;
 };
 static uint64_t g_oseed;
-static int g_pool, g_delay;
+static int g_pool, g_delay, g_hot;
 static OpDesc op_desc(int op) {
   OpDesc d;
   uint64_t h = prf(g_oseed, op, 1);
   // 9/10: 'lazy' insertions that rely on the graph's own acquisition of the
   // second endpoint (in/out and undirected flavours; elsewhere they act as 1/0)
-  static const int KW[] = {0, 0, 0, 1, 2, 2, 3, 4, 5, 6, 6, 7, 7, 8, 9, 10, 10};
-  d.kind = KW[h % 17];
+  // 11: 'lazy' lookup-and-update that relies on findEdge's own acquisition of the destination of a found edge
+  static const int KW[] = {0, 0, 0, 1, 2, 2, 3, 4, 5, 6, 6, 7, 7, 8, 9, 10, 10, 11, 11};
+  d.kind = KW[h % 19];
   d.a    = (int)((h >> 8) % (uint64_t)g_pool);
   d.b    = (int)((h >> 24) % (uint64_t)g_pool);
+  if (g_hot && g_pool >= 2 && (int)((h >> 40) % 10) < g_hot) {
+    d.a = (int)(prf(g_oseed, 77, 1) % (uint64_t)g_pool);
+    d.b = (int)((d.a + 1 + prf(g_oseed, 77, 2) % (uint64_t)(g_pool - 1)) % (uint64_t)g_pool);
+    if ((h >> 44) & 1)
+      std::swap(d.a, d.b);
+    // no parallel edges on the hot pair: they make the serial model ambiguous and waive its checks
+    if (d.kind == 1)
+      d.kind = 0;
+    if (d.kind == 9)
+      d.kind = 10;
+  }
   if (d.b == d.a)
     d.b = (d.a + 1) % g_pool;
   if (g_pool == 1)
     d.b = d.a;
   return d;
 }
+
+struct OwnerPeek : public galois::runtime::LockManagerBase {
+  static galois::runtime::LockManagerBase* owner(galois::runtime::Lockable* l) { return getOwner(l); }
+};
 
 template <typename G, bool Directed, bool InOut>
 struct Runner {
@@ -173,6 +192,42 @@ struct Runner {
     }
     GNode a = pool[d.a], b = pool[d.b];
     constexpr bool kLazyOk = !Directed || InOut; // the graph itself locks the second endpoint
+    if (d.kind == 11) {
+      // lazy lookup: the operator touches only the source; a successful findEdge locks the destination
+      // itself ("After finding edge, lock dst"), so reading and updating the found edge's data without
+      // further protection is what a cautious operator may do
+      graph.getData(a, galois::MethodFlag::WRITE);
+      bool alive = graph.containsNode(a);
+      for (int i = (int)(prf(g_oseed, op, 2) % (uint64_t)(g_delay + 1)); i > 0; --i)
+        gsched_point();
+      typename G::edge_iterator fe = graph.edge_end(a);
+      bool found                   = false;
+      if (alive && d.a != d.b) {
+        fe    = graph.findEdge(a, b);
+        found = fe != graph.edge_end(a);
+      }
+      if constexpr (std::is_convertible<GNode, galois::runtime::Lockable*>::value) {
+        // the mechanism the serialisability of such an operator rests on (read from findEdge: "After finding
+        // edge, lock dst"): the iteration now owns the destination of the edge it found
+        if (found && galois::runtime::getThreadContext() &&
+            OwnerPeek::owner(static_cast<galois::runtime::Lockable*>(b)) != galois::runtime::getThreadContext())
+          vfail("found-edge-destination-not-owned", "op %d: findEdge(%d,%d) returned an edge, but the iteration does not own node %d", op, d.a, d.b, d.b);
+      }
+      LogEntry le{op, found ? 1 : 0, 0, 0};
+      size_t ticket;
+      {
+        Quiet q;
+        ticket = ticket_log.size();
+        ticket_log.push_back(le);
+      }
+      // long enough for a whole other operator to run in between
+      for (int i = (int)(prf(g_oseed, op, 9) % (uint64_t)(12 * g_delay + 2)); i > 0; --i)
+        gsched_point();
+      if (found && graph.getEdgeData(fe, galois::MethodFlag::UNPROTECTED) < 50000)
+        graph.getEdgeData(fe, galois::MethodFlag::UNPROTECTED) = 1000 + op;
+      (void)ticket;
+      return;
+    }
     if (d.kind >= 9 && (!kLazyOk || d.a == d.b))
       d.kind = d.kind == 9 ? 1 : 0;
     if (d.kind >= 9) {
@@ -228,6 +283,10 @@ struct Runner {
       ticket = ticket_log.size();
       ticket_log.push_back(le);
     }
+    // (time passes between the commit point and the mutation: whoever does not really own what it is
+    //  about to touch can now be overtaken by an iteration that committed later)
+    for (int i = (int)(prf(g_oseed, op, 9) % (uint64_t)(g_delay + 2)); i > 0; --i)
+      gsched_point();
     // ---- phase 2: mutate (only objects already held are touched)
     int newdata = 1000 + op;
     int pairdata = 50000 + d.a * 100 + d.b; // multi-edges of one pair carry the same data
@@ -250,12 +309,17 @@ struct Runner {
         if (found)
           graph.removeEdge(a, fe);
         break;
+      // a successful findEdge has locked both end points ("After finding edge, lock dst"): half of the
+      // data accesses through the found edge therefore use UNPROTECTED, as a cautious operator may
       case 3:
         if (found)
-          le.data = graph.getEdgeData(fe);
+          le.data = (op % 2) ? graph.getEdgeData(fe, galois::MethodFlag::UNPROTECTED) : graph.getEdgeData(fe);
         break;
       case 8:
-        if (found && graph.getEdgeData(fe) < 50000) // leave multi-edge data alone (indistinguishable copies)
+        if (op % 2) {
+          if (found && graph.getEdgeData(fe, galois::MethodFlag::UNPROTECTED) < 50000)
+            graph.getEdgeData(fe, galois::MethodFlag::UNPROTECTED) = newdata;
+        } else if (found && graph.getEdgeData(fe) < 50000) // leave multi-edge data alone (indistinguishable copies)
           graph.getEdgeData(fe) = newdata;
         break;
       default:
@@ -293,6 +357,8 @@ struct Runner {
     Model& m = model;
     bool alive_a = m.has(d.a), alive_b = m.has(d.b);
     constexpr bool kLazyOk = !Directed || InOut;
+    if (d.kind == 11)
+      d.kind = 8; // same meaning as the eager lookup-and-update
     if (d.kind >= 9 && (!kLazyOk || d.a == d.b))
       d.kind = d.kind == 9 ? 1 : 0;
     if (d.kind >= 9) {
@@ -393,6 +459,7 @@ struct Runner {
     int N   = (int)c[F_NODES];
     g_pool  = N;
     g_delay = (int)c[F_DELAY];
+    g_hot   = (int)c[F_HOT];
     g_oseed = (uint64_t)c[F_OSEED];
     model.directed = Directed;
     model.inout    = InOut;
